@@ -244,5 +244,36 @@ def expectedSteps : List (String × String × String) := [
 theorem gen_checkpoint_steps_eq :
     Gen.CkptProtocol.steps.filter (fun s => s.2.1 ≠ "return") = expectedSteps := by decide
 
+/-! ### (T) the frame arithmetic that detects a commit racing a RESTART / FULL checkpoint
+
+RESTART and FULL have no write barrier; a commit between the copy before the checkpoint and the
+checkpoint is noticed only because the checkpoint reports more WAL frames than were replicated
+(`walFrameN > preCheckpointFrameN`), which triggers the boundary snapshot the model's `.snapshot`
+step stands for.  The two expressions are translated from db.go on every run. -/
+
+/-- For a position on a frame boundary the count is exact, for every page size and length. -/
+theorem gen_preCheckpointFrameN_exact (ps n : Nat) :
+    Gen.CkptProtocol.preCheckpointFrameN ps (32 + n * (ps + 24)) = n := by
+  unfold Gen.CkptProtocol.preCheckpointFrameN Gen.CkptProtocol.frameSize
+  by_cases hn : n = 0
+  · subst hn; simp
+  · have hpos : 0 < n * (ps + 24) := Nat.mul_pos (Nat.pos_of_ne_zero hn) (by omega)
+    rw [if_pos (by omega)]
+    have : 32 + n * (ps + 24) - 32 = n * (ps + 24) := by omega
+    rw [this]
+    exact Nat.mul_div_cancel n (by omega)
+
+/-- **A racing commit is always noticed.** With `n` frames replicated, a checkpoint that reports
+    `n + k` frames with `k > 0` never satisfies the "nothing raced" condition
+    `walFrameN ≤ preCheckpointFrameN`, so the boundary snapshot is taken. -/
+theorem gen_racing_commit_detected (ps n k : Nat) (hk : 0 < k) :
+    ¬ (n + k ≤ Gen.CkptProtocol.preCheckpointFrameN ps (32 + n * (ps + 24))) := by
+  rw [gen_preCheckpointFrameN_exact]; omega
+
+/-- and a checkpoint that reports no more frames than were replicated passes it. -/
+theorem gen_no_race_passes (ps n m : Nat) (hm : m ≤ n) :
+    m ≤ Gen.CkptProtocol.preCheckpointFrameN ps (32 + n * (ps + 24)) := by
+  rw [gen_preCheckpointFrameN_exact]; exact hm
+
 end C01
 end Litestream
